@@ -157,8 +157,9 @@ def cases(tier, seed):
             add(kind, w, True)
     if tier == "thorough":
         # 16-bit counter: the exit point is a literal, so loop control folds to constants and only the
-        # taken path (up to 65536 body instances) is built
-        for K in (0, 1, 2, 255, 256, 257, 32767, 65534, 65535, 65536 + 7):
+        # taken path is built.  Exit points up to 4095: a run to 32767 took 45 min in this (Python) engine,
+        # the full 65536 iterations twice that - they are outside the tier and outside the claim.
+        for K in (0, 1, 2, 255, 256, 257, 1023, 4095):
             add("exit", 16, False, ctx_lit=K, validate=False)
             add("exit_panic_after", 16, True, ctx_lit=K, validate=(K < 1000))
     add("exit", 4, False, mut={"fw_no_stop"})
@@ -179,7 +180,7 @@ def main():
         bounds={"counter_bits": "1,2,4,8 with a symbolic exit iteration incl. never; 16 in thorough with the exit iteration given as one of 10 literals",
                 "bodies": ["exit when counter == ctx", "same + panic after the exit point", "result type differs from accumulator type",
                            "body ignores the counter", "tuple accumulator with unit context"]},
-        outside=["16-bit counter with symbolic exit", "loop bodies other than listed", "jet arithmetic (validated concretely only)"],
+        outside=["16-bit counter with symbolic exit or with an exit after iteration 4095 (incl. never)", "loop bodies other than listed", "jet arithmetic (validated concretely only)"],
         assumptions=["z3 4.8.12 is sound on QF_UFBV", "simplicity-lang type finalisation supplies the DAG's types",
                      "source evaluator (simsym/src.py: for_while) is the specification"],
         min_validated=30,
